@@ -350,7 +350,10 @@ pub(crate) struct Dispatcher<T: Transport, E: UtpEnvironment> {
 
 impl<T: Transport, E: UtpEnvironment> Dispatcher<T, E> {
     pub(crate) async fn run_forever(mut self) -> crate::Result<()> {
-        let mut read_buf = [0u8; 16384];
+        // Large enough for any UDP datagram: with a shorter buffer recv_from() silently cuts off the
+        // tail of a larger packet (link_mtu can be configured up to 65535, and the peer picks its own
+        // sizes), and the truncated payload would be accepted and acknowledged as the whole segment.
+        let mut read_buf = vec![0u8; u16::MAX as usize];
 
         loop {
             if let Err(e) = self.run_once(&mut read_buf).await {
